@@ -66,11 +66,12 @@ def poly_records(polys, rng, per_poly):
             order = [a, b] + rest
             flat = [p[i] for i in order]
             fmap, scale = EMBED[rng.randrange(len(EMBED))]
-            pts = np.array([fmap(x, y) for x, y in flat], dtype=float)
-            rec = dict(kind="Poly", ccw=p, flat=flat, scale6=scale * 10 ** 6, area2got6=0, err="")
+            size = rng.choice([1.0, 1.0, 1e-3, 37.5])          # the face may be picometres or tens of Angstroms across
+            pts = np.array([fmap(x, y) for x, y in flat], dtype=float) * size
+            rec = dict(kind="Poly", ccw=p, flat=flat, scale6=scale * 10 ** 6, area2got6=0, err="", size=size)
             try:
                 with quiet():
-                    rec["area2got6"] = int(round(2 * float(get_polygon_area(order_points(pts))) * 1e6))
+                    rec["area2got6"] = int(round(2 * float(get_polygon_area(order_points(pts))) / size ** 2 * 1e6))
             except Exception as ex:
                 rec["err"] = type(ex).__name__
             recs.append(rec)
